@@ -254,6 +254,9 @@ def gen_case(rng):
     for _ in range(rng.choice([1, 1, 2, 2, 3, 4, 6])):
         if rng.random() < 0.12:
             items.append(("error", rng.choice(ERROR_LINES)))
+        elif items and rng.random() < 0.2:
+            # the very same line again (auto-reports repeat verbatim), possibly after other reports in between
+            items.append(rng.choice([it for it in items]))
         else:
             items.append(("report", rng.choice(FAMILIES)(rng)))
     return {"via": rng.choice(["printrun", "printrun", "serial", "socket"]), "items": items}
